@@ -109,7 +109,7 @@ def main(argv):
         if args.only:
             jobs = [j for j in jobs if re.search(args.only, j.name)]
         results = runner.run_jobs(jobs, workroot, gen_dir)
-        rc = account(mod, prop, tier, seed, jobs, results, metas, ev_path, t0, workroot, write=not args.only, verbose=bool(args.only))
+        rc = account(mod, prop, tier, seed, jobs, results, metas, ev_path, t0, workroot, write=not args.only and not os.environ.get("VERIF_NO_EVIDENCE"), verbose=bool(args.only))
         return rc
     finally:
         if not args.keep:
